@@ -144,6 +144,20 @@ pub fn shapes(tier: Tier) -> Vec<Shape> {
             out.push(mk(&format!("{}-midtx-del-first-half", name), &big, vec![tx(ops), Action::Reopen], mid));
         }
     }
+    // binary keys around the sign bit and keys that are prefixes of each other, one and two levels
+    {
+        let bkeys = ["0x00", "0x0000", "0x7f", "0x7fff", "0x80", "0x8000", "0xff", "0xff00", "a", "ab", "abc"];
+        let mut small = vec![OpSpec::bucket("create", &[], "b")];
+        let mut large = vec![OpSpec::bucket("create", &[], "b")];
+        for k in bkeys {
+            small.push(OpSpec::put(&["b"], k, "v*8"));
+            large.push(OpSpec::put(&["b"], k, "w*300"));
+        }
+        large.push(OpSpec::bucket("create", &["b"], "0x80aa"));
+        out.push(mk("binary-keys-leaf", &d, vec![tx(small), Action::Reopen], vec![]));
+        out.push(mk("binary-keys-two-level", &d, vec![tx(large.clone()), Action::Reopen], vec![]));
+        out.push(mk("binary-keys-two-level-midtx", &d, vec![tx(large), Action::Reopen], vec![OpSpec::del(&["b"], "0x80"), OpSpec::put(&["b"], "0x81", "v*8"), OpSpec::del(&["b"], "ab")]));
+    }
     // the empty key as first entry of a two-level tree
     {
         let mut ops = vec![OpSpec::bucket("create", &[], "b"), OpSpec::put(&["b"], "", "w*300")];
